@@ -823,6 +823,16 @@ def _oneshot_send(eng, st, args, dty, callee, m):
     return VEnum(RESULT, z3.If(alive, bv(0, 8), bv(1, 8)), {0: (UNIT,), 1: (args[1],)})
 
 
+@summary(r"^<\{closure@[^}]*\} as (Fn|FnMut|FnOnce)<.*>>::(call|call_mut|call_once)$|^<&(mut )?\{closure@[^}]*\} as (Fn|FnMut|FnOnce)<.*>>::(call|call_mut|call_once)$",
+         "direct call of a local closure through Fn / FnMut / FnOnce: its real MIR body is executed")
+def _closure_call(eng, st, args, dty, callee, m):
+    tup = args[1]
+    actual = list(tup.f) if isinstance(tup, VStruct) else [tup]
+    s2, r = eng.call_closure(st, args[0], actual)
+    _adopt(st, s2)
+    return r
+
+
 @summary(r"^<(std::option::)?Option<.*> as Default>::default$", "Option::default = None")
 def _opt_default(eng, st, args, dty, callee, m):
     return none()
